@@ -126,11 +126,11 @@ CHECKS = {
     },
     "C11": {
         "title": "everything allocated is released by fin()",
-        "quick": [run("conc_leak_asan", "conc-asan", mode="leak", prop="C11", cycles=3, leaks=True, repeat=6),
-                  run("conc_leak_plain", "conc-plain", mode="leak", prop="C11", cycles=6, repeat=4)],
+        "quick": [run("conc_leak_asan", "conc-asan", mode="leak", prop="C11", cycles=4, leaks=True, repeat=12),
+                  run("conc_leak_plain", "conc-plain", mode="leak", prop="C11", cycles=8, repeat=12)],
         "thorough": [run("conc_leak_asan", "conc-asan", mode="leak", prop="C11", cycles=6, leaks=True, repeat=200, timeout=3400),
                      run("conc_leak_plain", "conc-plain", mode="leak", prop="C11", cycles=20, repeat=200, timeout=3400)],
-        "parallel": {"quick": 2, "thorough": 4},
+        "parallel": {"quick": 4, "thorough": 4},
     },
     "C12": {
         "title": "put reports exactly the borders whose version changed",
@@ -168,7 +168,8 @@ CHECKS = {
     },
     "C16": {
         "title": "init/fin cycles are repeatable",
-        "quick": [run("seq_cycle", "conc-asan", mode="cycle", prop="C16", cycles=5, repeat=6)],
+        "quick": [run("seq_cycle", "conc-asan", mode="cycle", prop="C16", cycles=6, repeat=12),
+                  run("seq_cycle_plain", "conc-plain", mode="cycle", prop="C16", cycles=10, repeat=6)],
         "thorough": [run("seq_cycle", "conc-asan", mode="cycle", prop="C16", cycles=12, repeat=150, timeout=3400),
                      run("seq_cycle_e5", "conc-plain-e5", mode="cycle", prop="C16", cycles=8, repeat=20, timeout=3400),
                      run("seq_cycle_e40", "conc-plain-e40", mode="cycle", prop="C16", cycles=4, cap_periods=100, repeat=6, timeout=3400)],
